@@ -544,6 +544,41 @@ def rule_number_text(F, R):
         if not ok: R.violation(fn + ' / T / number conversion', 'T', why, e.get('loc'))
     if n == 0: R.violation(fn + ' / T / number conversion / VACUITY', 'VACUITY', 'no Countable token is constructed in tokenize')
 
+def rule_reference_text(F, R):
+    """a `{name}` in the text is a Reference token carrying that name: tokenize constructs `Reference(<text of the reference group>)` and
+    the token reaches the token list (a branch that recognises the group and pushes nothing drops the reference from the formula)"""
+    import flow
+    lib = F.lib()
+    fn = PARSER + 'tokenize'
+    t = lib.ithir.get(fn)
+    if t is None:
+        R.violation(fn + ' / T / anchor', 'UNDECIDABLE', 'tokenize not found'); return
+    fl = flow.Flow(lib, max_depth=3)
+    found = []
+    flow.scan(fl, t['body'], {}, lambda x: x.get('k') == 'Adt' and canon(x.get('adt', '')) == TOK and x.get('variant') == 'Reference', found)
+    def group_text(x):
+        if x[0] in ('some_payload',): return group_text(x[1])
+        if x[0] == 'payload' and isinstance(x[1], tuple): return group_text(x[1])
+        if x[0] == 'optmap': return group_text(x[1])
+        if x[0] == 'call' and x[1] == 'regex::Captures::name' and len(x[2]) == 2 and x[2][1] == ('lit', 'reference'): return True
+        if x[0] == 'call' and x[1].split('::')[-1] in ('as_str', 'to_string', 'to_owned', 'into', 'from', 'clone', 'as_ref', 'deref', 'borrow') and len(x[2]) >= 1: return group_text(x[2][0])
+        return False
+    pushed = set()
+    for e in walk(t['body']):
+        if e['k'] == 'Call' and callee_name(e) == 'std::vec::Vec::push':
+            for x in walk(e['args'][1]): pushed.add(id(x))
+    # a token bound first and pushed after (`let token = match .. { .. Reference(..) .. }; result.push(token)`) counts as pushed
+    bound_then_pushed = any(e['k'] == 'Call' and callee_name(e) == 'std::vec::Vec::push' and e['args'][1].get('k') in ('VarRef', 'Use') for e in walk(t['body']))
+    n = 0
+    for e, env in found:
+        if not e['fields']: continue
+        n += 1
+        term = fl.ev(e['fields'][0]['expr'], env)
+        ok = group_text(term) and (id(e) in pushed or bound_then_pushed)
+        R.count('T:reference-tokens'); R.obligation(bool(ok), 'T reference text')
+        if not ok: R.violation(fn + ' / T / reference token', 'T', 'a reference token must carry the text of the reference group and be added to the token list (found %s%s)' % (flow.show(term)[:100], '' if id(e) in pushed or bound_then_pushed else ', not pushed'), e.get('loc'))
+    if n == 0: R.violation(fn + ' / T / reference token', 'T', 'tokenize recognises the reference group `{name}` but constructs no Reference token: the reference is dropped from the formula', t['span']['loc'])
+
 def rule_input_text(F, R):
     """what is tokenised is the whole input, unchanged: tokenize reads its reader with one `read_to_string` into a string that nothing
     else writes, and the token regex runs over exactly that string (reading line by line drops the separators between the lines)"""
